@@ -722,7 +722,15 @@ func (s *Scope) evalCall(e ECall) Term {
 		r.GoT = types.Typ[types.String]
 		return r
 	}
-	if purePkgs[fpkg] {
+	libPath := fpkg
+	if cur := x.P.ByName[s.pkg]; cur != nil {
+		for _, imp := range cur.Imports {
+			if imp.Name == fpkg {
+				libPath = imp.PkgPath
+			}
+		}
+	}
+	if purePkgs[fpkg] || purePkgs[libPath] {
 		// library function as the same uninterpreted function the code's calls use
 		as := args()
 		var sorts []Sort
@@ -737,7 +745,11 @@ func (s *Scope) evalCall(e ECall) Term {
 				fname = fname[:k]
 			}
 		}
-		uf := fmt.Sprintf("uf_%s$%d", sanitize(fpkg+"."+fname), resIdx)
+		ufPkg := fpkg
+		if purePkgs[libPath] {
+			ufPkg = libPath
+		}
+		uf := fmt.Sprintf("uf_%s$%d", sanitize(ufPkg+"."+fname), resIdx)
 		for _, so := range sorts {
 			uf += "_" + sanitize(string(so))
 		}
